@@ -553,7 +553,18 @@ def acl_histories(r, thorough, types=("join", "publish", "read")):
             g.send(owner, frame("SET_CHAN_ACL", [("id", g.rid()), ("channel", ch), ("type", ty),
                                                     ("action", r.choice(["add", "add", "remove", "remove"])), ("nids", nids)]))
             g.send(owner, frame("GET_CHAN_ACL", [("id", g.rid()), ("channel", ch), ("type", ty)]))
-        if r.random() < 0.5:
+        ending = r.random()
+        if ending < 0.25:
+            # two domains listed, then the last user entry of the local domain is removed: the local domain must be gone
+            # from the list (an empty user set would mean "the whole domain")
+            u = r.choice(USERS)
+            g.send(owner, frame("SET_CHAN_ACL", [("id", g.rid()), ("channel", ch), ("type", ty), ("action", "remove"),
+                                                    ("nids", [x + "@localhost" for x in USERS] + ["localhost"])]))
+            g.send(owner, frame("SET_CHAN_ACL", [("id", g.rid()), ("channel", ch), ("type", ty), ("action", "add"),
+                                                    ("nids", [u + "@localhost", "eve@other.example.org"])]))
+            g.send(owner, frame("SET_CHAN_ACL", [("id", g.rid()), ("channel", ch), ("type", ty), ("action", "remove"), ("nids", [u + "@localhost"])]))
+            g.send(owner, frame("GET_CHAN_ACL", [("id", g.rid()), ("channel", ch), ("type", ty)]))
+        elif ending < 0.6:
             # end on a bare-domain entry: whatever user entries of the local domain were listed are removed, then the
             # domain itself is added (its users are then admitted only through the bare entry)
             g.send(owner, frame("SET_CHAN_ACL", [("id", g.rid()), ("channel", ch), ("type", ty), ("action", "remove"),
@@ -635,6 +646,8 @@ def kick_histories(r, thorough):
             g.conns[k] = {"phase": 2, "user": owner}
             g.send(k, frame("SET_CHAN_ACL", [("id", g.rid()), ("channel", ch), ("type", "join"), ("action", "add"), ("nids", ["dave@localhost"])]), [])
             g.send(ks[others[1]], frame("MEMBERS", [("id", g.rid()), ("channel", ch)]), [])
+            # somebody still in the channel publishes: the reconnected namesake, who joined nothing, must not receive it
+            g.send(ks[others[1]], frame("BROADCAST", [("id", g.rid()), ("channel", ch), ("length", 4), ("qos", 1)], b"late"), [])
         elif tail == "victim_refills":
             for c2 in CHANNELS + ["!c4@localhost", "!c5@localhost"]:
                 g.send(ks[victim], frame("JOIN", [("id", g.rid()), ("channel", c2)]), [])
